@@ -66,6 +66,12 @@ FAULTS = {
  'N8 [complex records] interpolation keeps the real part only': lambda: I(NP_INTERP, 'acc_interp = np.interp(t_db, t_int, np.real(values))'),
  'N9 [histories: reset then resample] reset_values keeps the old npts': lambda: {SG: ORIG_SG.replace("        self._npts = len(self._values)\n        self.clear_cache()\n", "        self.clear_cache()\n", 1)},
  'N10 [consumer ratio path / one-sided records] tail past the last sample set to 0 when refining': lambda: I(NP_INTERP, 'acc_interp = np.interp(t_db, t_int, values, right=(0.0 if factor > 1 else None))'),
+ # ---- wave 5: extreme but valid scales (each revealed only by the class named)
+ 'X1 [uniformly tiny record] interp zero test through the sum of squares': lambda: I('    t_int = np.arange(len(values))\n', '    t_int = np.arange(len(values))\n    if not np.iscomplexobj(values) and np.sum(np.asarray(values, dtype=float) ** 2) == 0:\n        values = np.zeros(len(values))\n'),
+ 'X2 [uniformly tiny band-limited signal] resample returns zeros when the energy is zero': lambda: R('    acc_interp = resample(asig.values, new_npts)\n', '    acc_interp = resample(asig.values, new_npts)\n    if np.sum(np.abs(asig.values) ** 2) == 0:\n        acc_interp = np.zeros(new_npts)\n'),
+ 'X3 [uniformly huge record] finiteness test through the energy': lambda: I('    t_int = np.arange(len(values))\n', '    t_int = np.arange(len(values))\n    if not np.isfinite(np.sum(np.abs(np.asarray(values)) ** 2)):\n        raise ValueError("record contains non-finite values")\n'),
+ 'X4 [1e-150 next to 1e150 in one record] samples below 1e-100 of the peak are flushed to zero': lambda: I('    t_int = np.arange(len(values))\n', '    t_int = np.arange(len(values))\n    values = np.where(np.abs(values) < 1e-100 * np.max(np.abs(values)), 0.0, values)\n'),
+ 'X5 [huge band-limited signal] resample normalises by the rms': lambda: R('    acc_interp = resample(asig.values, new_npts)\n', '    rms_ = np.sqrt(np.mean(np.abs(asig.values) ** 2))\n    acc_interp = resample(asig.values, new_npts) if (rms_ == 0 or np.isfinite(rms_)) else resample(asig.values / rms_, new_npts) * rms_\n'),
  # ---- controls (behaviour preserving)
  'Q1 math.ceil / int()': lambda: {TS: 'import math\n' + head + mut(mut(interp, 'int(np.ceil(factor))', 'int(math.ceil(factor))'), '1 / np.floor(1 / factor)', '1.0 / float(int(1 / factor))') + obj + res},
  'Q2 arange(int(ceil))': lambda: I('np.arange(new_npts) / factor', 'np.arange(int(np.ceil(new_npts))) / factor'),
